@@ -134,4 +134,52 @@ theorem runClient_empty (nil : α) (call : Comp ε σ α) (s : σ) :
     runClient nil ({} : Reg ε σ α) call s = call s := by
   rw [runClient_eq_runServer]; exact runServer_empty _ _ _ _
 
+/-! ## Registration histories -/
+
+theorem after_append (reg : Reg ε σ α) (xs ys : List (RegOp ε σ α)) :
+    reg.after (xs ++ ys) = (reg.after xs).after ys := by
+  simp [Reg.after, List.foldl_append]
+
+theorem after_fields : ∀ (ops : List (RegOp ε σ α)) (reg : Reg ε σ α),
+    (reg.after ops).mws = reg.mws ++ ops.flatMap RegOp.mwsOf ∧
+    (reg.after ops).pre = reg.pre ++ ops.flatMap RegOp.preOf ∧
+    (reg.after ops).post = reg.post ++ ops.flatMap RegOp.postOf ∧
+    (reg.after ops).single = ((reg.single.toList ++ ops.flatMap RegOp.singleOf).getLast?)
+  | [], reg => by
+    cases h : reg.single <;> simp [Reg.after, h]
+  | op :: ops, reg => by
+    have ih := after_fields ops (reg.register op)
+    have e : reg.after (op :: ops) = (reg.register op).after ops := rfl
+    rw [e]
+    obtain ⟨h1, h2, h3, h4⟩ := ih
+    refine ⟨?_, ?_, ?_, ?_⟩
+    · rw [h1]; cases op <;> simp [Reg.register, RegOp.mwsOf]
+    · rw [h2]; cases op <;> simp [Reg.register, RegOp.preOf]
+    · rw [h3]; cases op <;> simp [Reg.register, RegOp.postOf]
+    · rw [h4]
+      cases op with
+      | single f =>
+        cases h : reg.single <;> simp [Reg.register, RegOp.singleOf, List.getLast?_cons_cons]
+        all_goals
+          cases hl : (List.flatMap RegOp.singleOf ops).getLast? <;> simp [hl]
+      | pre f => simp [Reg.register, RegOp.singleOf]
+      | post f => simp [Reg.register, RegOp.singleOf]
+      | useMw ms => simp [Reg.register, RegOp.singleOf]
+
+theorem getMiddlewareFilter_chain (mws : List (Mw ε σ α)) (h : mws ≠ []) :
+    getMiddlewareFilter mws = some (chainOf mws) := by
+  cases mws with
+  | nil => exact absurd rfl h
+  | cons m ms => simp [getMiddlewareFilter, chainOf]
+
+theorem runClient_chain (nil : α) (reg : Reg ε σ α) (call : Comp ε σ α)
+    (hs : reg.single = none) (hm : reg.mws ≠ []) : runClient nil reg call = chainOf reg.mws call := by
+  funext s
+  simp [runClient, hs, getMiddlewareFilter_chain reg.mws hm]
+
+theorem runServer_chain (v : Variant) (nil : α) (reg : Reg ε σ α) (call : Comp ε σ α)
+    (hs : reg.single = none) (hm : reg.mws ≠ []) : runServer v nil reg call = chainOf reg.mws call := by
+  funext s
+  simp [runServer, hs, getMiddlewareFilter_chain reg.mws hm]
+
 end Tars.Filter
